@@ -1,12 +1,16 @@
-#!/bin/sh
-# Run every stored variant against all properties it names; print one line each. (Developer tool; the thorough tier does the same per property.)
+#!/bin/bash
+# Run every stored variant against all properties it names (8 at a time); print one line each.
+# (Developer tool; the thorough tier does the same per property.)
 cd "$(dirname "$0")"
+one() {
+  f=$1; p=$2; id=$(basename $f .json)
+  out=$(./bin/crdcheck -p $p -variant $f -noevidence 2>&1); rc=$?
+  rules=$(echo "$out" | grep '^FINDING' | sed 's/.*rule=\([A-Z0-9-]*\).*/\1/' | sort -u | tr '\n' ',')
+  echo "$id $p rc=$rc $rules"
+}
+export -f one
 for f in variants/*.json; do
-  id=$(basename $f .json)
-  props=$(python3 -c "import json,sys; print(' '.join(json.load(open('$f'))['properties']))")
-  for p in $props; do
-    out=$(./bin/crdcheck -p $p -variant $f -noevidence 2>&1); rc=$?
-    rules=$(echo "$out" | grep '^FINDING' | sed 's/.*rule=\([A-Z0-9-]*\).*/\1/' | sort -u | tr '\n' ',')
-    echo "$id $p rc=$rc $rules"
+  for p in $(python3 -c "import json,sys; print(' '.join(json.load(open('$f'))['properties']))"); do
+    echo "$f $p"
   done
-done
+done | xargs -P 8 -n 2 bash -c 'one "$0" "$1"' | sort
